@@ -6,6 +6,8 @@ import copy
 import random
 
 from .. import gen
+
+gen.WIDE_RATE = 0   # wide (~100 operation) instances: too costly here / not needed
 from ..drive import Run
 
 ID = "C15"
@@ -200,6 +202,19 @@ def run_case(ctx, case):
     direct = JobShopInstance([[Operation(list(ms), dd) for ms, dd in zip(mj, dj)]
                               for mj, dj in zip(inst["machines"], inst["durations"])])
     L.expect(A, direct, True, "constructor vs from_matrices", None)
+    if case["seed"] % 6 == 0 and not gen.is_flexible(inst) and all(
+            isinstance(x, int) for j in inst["durations"] for x in j):
+        # a third independent construction path: the Taillard text form of the same content
+        import os
+        import tempfile
+        from .c14 import taillard_text
+        with tempfile.TemporaryDirectory(prefix="jsv-c15-") as td:
+            path = os.path.join(td, "inst.txt")
+            with open(path, "w", encoding="utf-8") as f:
+                f.write(taillard_text(inst, rng))
+            from_file = JobShopInstance.from_taillard_file(path)
+        L.expect(A, from_file, True, "from a Taillard file vs from_matrices", None)
+        ctx.count("taillard_built_twins")
     # work done on a deep copy (re-wrapped with another job layout, as the library's own
     # transformations do) must leave the original equal to its twin
     dup = copy.deepcopy(A)
@@ -252,7 +267,9 @@ def run_case(ctx, case):
     nonempty = [k for k, lst in enumerate(lists) if lst]
     k = rng.choice(nonempty)
     last = lists[k][-1]
-    lists[k][-1] = ScheduledOperation(last.operation, last.start_time + 1, last.machine_id)
+    # (also by less than one time unit: start times are compared as they are, not rounded)
+    lists[k][-1] = ScheduledOperation(last.operation, last.start_time + rng.choice([1, 1, 0.5, 0.25]),
+                                      last.machine_id)
     try:
         SD = Schedule(B, lists)
         L.expect(SA, SD, False, "one start time differs", None)
@@ -265,7 +282,11 @@ def run_case(ctx, case):
     so = rng.choice([x for lst in SA.schedule for x in lst])
     oid = so.operation.operation_id
     L.expect(so, ScheduledOperation(opsB[oid], so.start_time, so.machine_id), True, "independent copy", [oid])
-    L.expect(so, ScheduledOperation(opsB[oid], so.start_time + 3, so.machine_id), False, "start time", [oid])
+    L.expect(so, ScheduledOperation(opsB[oid], so.start_time + rng.choice([3, 1, 0.5, 0.75]), so.machine_id),
+             False, "start time", [oid])
+    L.expect(ScheduledOperation(opsA[oid], so.start_time + 0.25, so.machine_id),
+             ScheduledOperation(opsB[oid], so.start_time + 0.75, so.machine_id), False,
+             "start times that differ by half a unit", [oid])
     if len(so.operation.machines) > 1:
         other = [m for m in so.operation.machines if m != so.machine_id][0]
         L.expect(so, ScheduledOperation(opsB[oid], so.start_time, other), False, "machine assignment", [oid])
